@@ -13,14 +13,22 @@
              clifford / full simplification are RECORDED (stats counters unpromised, unpromised_ok_equiv, ...), never judged.
    cli_opt : expect = ok:     the printed QASM parsed back: exit 0, no panic, same contract
              expect = reject: an invocation with nothing to print (two method flags, missing / unparsable input):
-                              L2 CliRejects: non-zero exit, no panic, no QASM printed, no output file *)
+                              L2 CliRejects: non-zero exit, no panic, no QASM printed, no output file
+   begin / extractf (engine flag --generic): the "arbitrary rational Z/X phases" of C03's quantifier: a unitary source circuit with rz / rx /
+             parity-phase angles that are NOT multiples of pi/4 (no exact meaning in Ring; `c` keeps only the qubit count) through the
+             promised strategy x extractor combinations.  TLC cannot decide floating point: the harness evaluates source and result
+             with its float gate-matrix evaluator (harness/src/refeval.rs ref_circ, the matrices of spec/Circuit.tla, validated against
+             CircSem by Trace_Tensor!RefEvalOK) and logs the boolean `close` = proportional with a non-zero factor at 1e-9 (for some
+             permutation of the input qubits in the up-to-permutation modes); the qubit count and the gate kinds of the result are
+             logged as values.  L2 ExtractOKFloat: close, e.n = c.n, kinds within ExtractKinds; ExtractionSucceeds / Terminates / NoPanic *)
 EXTENDS TraceLib, ToGraph, FiniteSets, FiniteSetsExt
 VARIABLES l, c, u0, viol, drift, stats
 vars == <<l, c, u0, viol, drift, stats>>
 Init == l = 1 /\ c = [n |-> 0, gates |-> <<>>] /\ u0 = <<>> /\ viol = <<>> /\ drift = <<>>
         /\ stats = [circuits |-> 0, extractions |-> 0, cli |-> 0, nontrivial |-> 0, smaller |-> 0,
                     perm_modes |-> 0, entry_points |-> 0, explicit_gaussf |-> 0, cli_rejects |-> 0,
-                    unpromised |-> 0, unpromised_ok_equiv |-> 0, unpromised_ok_wrong |-> 0, unpromised_err |-> 0]
+                    unpromised |-> 0, unpromised_ok_equiv |-> 0, unpromised_ok_wrong |-> 0, unpromised_err |-> 0,
+                    generic_circuits |-> 0, generic_extractions |-> 0, generic_ok |-> 0]
 ExtractKinds == {"HAD", "ZPhase", "CZ", "CNOT", "SWAP"}
 BasicOnly(o) == \A i \in 1..Len(o.gates) : o.gates[i].t \in ExtractKinds
 Perms(n) == {p \in [1..n -> 1..n] : \A i, j \in 1..n : i # j => p[i] # p[j]}
@@ -57,6 +65,15 @@ Step(e) ==
                                         !.entry_points = @ + B(e.mode \in {"to_circuit", "to_circuit_mut", "extractor_default", "extractor_simple"}),
                                         !.explicit_gaussf = @ + B(e.mode \in {"wg_simple", "wg_single", "wg_none", "wg_custom"})]
               /\ UNCHANGED <<c, u0, drift>>
+    [] e.k = "begin" ->
+         /\ c' = [n |-> e.c.n, gates |-> <<>>] /\ u0' = <<>> /\ stats' = [stats EXCEPT !.generic_circuits = @ + 1] /\ UNCHANGED <<viol, drift>>
+    [] e.k = "extractf" ->
+         LET ok == e.res = "ok" /\ e.close /\ e.n = c.n /\ \A i \in 1..Len(e.kinds) : e.kinds[i] \in ExtractKinds IN
+         /\ viol' = IF ~Promised(e.simp, e.mode) THEN viol
+                    ELSE IF e.res # "ok" THEN Append(viol, <<l, IF e.res = "error" THEN "ExtractionSucceeds" ELSE IF e.res = "timeout" THEN "Terminates" ELSE "NoPanic", e.simp, e.mode>>)
+                    ELSE IF ok THEN viol ELSE Append(viol, <<l, "ExtractOKFloat", e.simp, e.mode>>)
+         /\ stats' = [stats EXCEPT !.generic_extractions = @ + 1, !.generic_ok = @ + B(ok), !.nontrivial = @ + B(ok)]
+         /\ UNCHANGED <<c, u0, drift>>
     [] e.k = "cli_opt" ->
          IF Has(e, "expect") /\ e.expect = "reject" THEN
            /\ viol' = IF e.exit # 0 /\ ~e.panicked /\ ~e.printed_qasm /\ ~e.wrote_file THEN viol
